@@ -146,6 +146,11 @@ class Gen:
             ci = ["ci", rs.range(0, min(lim, 7))]
             a = self.gen((k, w // 2), d + 1)
             return ["mul", t, ci, a] if rs.below(2) else ["mul", t, a, ci]
+        if c == "resize" and rs.below(3) == 0:
+            # resize with zeros appended on the right: value * 2**zeros, then sign- / zero-extended to the target width
+            w0 = rs.choice([x for x in ws if x < w])
+            z = rs.range(1, w - w0)
+            return ["resizez", t, self.gen((k, w0), d + 1), z, rs.below(2)]
         if c == "resize":
             w0 = rs.choice([x for x in ws if x < w])
             return ["resize", t, self.gen((k, w0), d + 1)]
@@ -359,6 +364,8 @@ def r(e, bit_as_cond=False):
         return f"({r(e[3])} if {r(e[2])} else {r(e[4])})"
     if op == "resize":
         return f"{r(e[2])}.resize({t[1]})"
+    if op == "resizez":
+        return f"{r(e[2])}.resize({t[1]}, zeros={e[3]})" if e[4] or typ(e[2])[1] + e[3] < t[1] else f"{r(e[2])}.resize(zeros={e[3]})"
     if op == "conv":
         # run-time operands: a typed temporary (the constructor form takes constants only); constants: the constructor
         return f"cohdl.Temporary[{tstr(t)}]({r(e[2])})" if ports_used(e[2]) else f"{tstr(t)}({r(e[2])})"
@@ -527,6 +534,8 @@ def ev(e, env):
         return ev(e[3], env) if ev(e[2], env) else ev(e[4], env)
     if op == "resize":
         return wrap(num(e[2], env), t)
+    if op == "resizez":
+        return wrap(num(e[2], env) << e[3], t)
     if op == "conv":
         return wrap(num(e[2], env), t)
     if op == "view":
